@@ -1,4 +1,5 @@
 import RoaringModel.Lemmas.BitmapQuery
+import RoaringModel.Lemmas.Mirror32
 /-!
 # C07 — order-statistic and range queries agree with the sorted set (property theorems)
 
@@ -49,5 +50,33 @@ theorem C07_select_rank (b : Bitmap) (h : b.WF) (v : Nat) (hv : v ∈ Bitmap.ele
 /-- non-vacuity: a well-formed two-chunk value (array + bitset) exists and the queries compute on it -/
 example : Bitmap.rank (Bitmap.insertRange (Bitmap.insert [] 7).1 (.incl 65536) (.excl 70000)).1 65540 = 6 := by
   decide +kernel
+
+/-! ### `rank` as the driver executes it (`Bitmap.rankMirror`, `Mirror32.lean`): in the `Ok(i)` arm the chunks before
+    `i` are summed in reverse (inherent.rs:700); `rank_mirror_eq` (unconditional) -/
+
+theorem C07_rank_mirror (b : Bitmap) (h : b.WF) (v : Nat) (hv : v < 4294967296) :
+    Bitmap.rankMirror b v = Spec.rank (Bitmap.elems b) v := by
+  rw [Bitmap.rank_mirror_eq]; exact C07_rank b h v hv
+
+theorem C07_rank_select_mirror (b : Bitmap) (h : b.WF) (n : Nat) (hn : n < (Bitmap.elems b).length) :
+    ∃ v, Bitmap.select b n = some v ∧ Bitmap.rankMirror b v = n + 1 := by
+  obtain ⟨v, h1, h2⟩ := C07_rank_select b h n hn
+  exact ⟨v, h1, by rw [Bitmap.rank_mirror_eq]; exact h2⟩
+
+theorem C07_select_rank_mirror (b : Bitmap) (h : b.WF) (v : Nat) (hv : v ∈ Bitmap.elems b) :
+    Bitmap.select b (Bitmap.rankMirror b v - 1) = some v := by
+  rw [Bitmap.rank_mirror_eq]; exact C07_select_rank b h v hv
+
+example : Bitmap.rankMirror (Bitmap.insertRange (Bitmap.insert [] 7).1 (.incl 65536) (.excl 70000)).1 65540 = 6 := by
+  decide +kernel
+
+/-- `RoaringBitmap::full()` (inherent.rs:35, `Bitmap.full` in `Mirror32.lean`; never executed by the correspondence:
+    2^32 elements) is well-formed, `is_full()` answers `true` on it and it holds exactly 2^32 integers -/
+theorem C07_full : Bitmap.full.WF ∧ Bitmap.isFull Bitmap.full = true ∧
+    (Bitmap.elems Bitmap.full).length = 4294967296 := by
+  refine ⟨Bitmap.full_wf, Bitmap.full_isFull, ?_⟩
+  have h := C07_isFull Bitmap.full Bitmap.full_wf
+  rw [Bitmap.full_isFull] at h
+  simpa [Spec.isFull, u32Max] using h.symm
 
 end Roaring.C07
